@@ -1,5 +1,5 @@
 import OpyVerif.Proofs.EvalProg
-import OpyVerif.Generated.Ops
+import OpyVerif.Generated.Ops.evalProg_eq
 /-!
 C10 about the *translated* `_evaluate`: guard, operand sources, terminal test and operator chain as read from the current
 source are `evalTree`, the function every C10 theorem (`evalTree_total`, `evalTree_shape`, `evalTree_<op>`, …) speaks about.
